@@ -6,7 +6,8 @@
    whose exceptions stay inside the funnel (they raise only ValueError: checked on every input
    of the correspondence). *)
 From Coq Require Import ZArith List Bool.
-From Verif Require Import Lib.Sx Lib.PyStr Lib.PyStr3 Model.Framing Model.Parsers Proofs.Parsers.
+From Verif Require Import Lib.Sx Lib.PyStr Lib.PyStr3 Lib.Facts Model.Framing Model.Parsers Proofs.Parsers.
+From Verif Require Import Gen.Dispatch.
 Import ListNotations.
 Open Scope Z_scope.
 
@@ -182,10 +183,29 @@ Theorem C19_server_line_contained :
 Proof. exact server_line_contained. Qed.
 Print Assumptions C19_server_line_contained.
 
-(* TODO(lead, on merge): instantiate with the ladder regenerated in Gen/Dispatch.v *)
-Theorem C19_server_ladder_obligation : ladder_contains ladder_as_read = true.
-Proof. exact ladder_as_read_contains. Qed.
-Print Assumptions C19_server_ladder_obligation.
+(* The structural tie: the except clauses and the `finally` block of Server.dispatcher as
+   REGENERATED from /repo/src/aioftp/server.py by tools/py2v on every run (Gen/Dispatch.v) pass the
+   closed check, so the theorem above applies to the ladder the source has today. *)
+Theorem C19_server_dispatcher_obligation :
+  dispatcher_contains (d_task_except dispatcher) (d_outer_except dispatcher) (d_finally dispatcher) = true.
+Proof. vm_compute. reflexivity. Qed.
+Print Assumptions C19_server_dispatcher_obligation.
+
+Theorem C19_server_line_contained_today :
+  exists lad,
+    ladder_of_facts (d_task_except dispatcher) (d_outer_except dispatcher) = Some lad /\
+    forall (S : Type) (handle : S -> text -> text -> option S) dec limit (srv : sessions S) sid ls,
+    exists srv', deliver S handle lad dec limit srv sid ls = Served S srv'
+      /\ (forall sid', sid' <> sid -> find_session S sid' srv' = find_session S sid' srv)
+      /\ (forall e, server_parse_command dec limit ls = CmdExc e -> find_session S sid srv' = None).
+Proof. exact (server_line_contained_gen _ _ _ C19_server_dispatcher_obligation). Qed.
+Print Assumptions C19_server_line_contained_today.
+
+(* the ladder the harness's model stream uses is the one read from the source *)
+Theorem C19_model_ladder_is_source_ladder :
+  ladder_of_facts (d_task_except dispatcher) (d_outer_except dispatcher) = Some ladder_as_read.
+Proof. vm_compute. reflexivity. Qed.
+Print Assumptions C19_model_ladder_is_source_ladder.
 
 (* non-vacuity *)
 Example C19_unix_line_parses :
